@@ -63,6 +63,16 @@ class TrackMachine(ohist.Machine):
             sp = good_track(t, m, k)
             sp["label"] = f"bad-{kind}"
             return specs.build_item(t, sp, self.base())
+        if kind == "regrown":
+            # built with the right length, then its arrays are replaced by longer ones (public
+            # attributes): its real frame count no longer matches the block
+            x = specs.build_item(t, good_track(t, n, k), self.base())
+            longer = specs.build_item(t, good_track(t, n + 2, k), self.base())
+            for attr in ("data", "application_point", "force", "torque"):
+                if hasattr(longer, attr) and isinstance(getattr(longer, attr), np.ndarray):
+                    setattr(x, attr, getattr(longer, attr))
+            x.label = "bad-regrown"
+            return x
         if kind == "none":
             return None
         if kind == "str":
@@ -74,8 +84,10 @@ class TrackMachine(ohist.Machine):
             return specs.build_item(other, good_track(other, n, k), {"format": 1})
         raise ValueError(kind)
 
-    def add(self, b, x):
-        return b.addSignal(x) if self.t == R.T_EMG else b.add_track(x)
+    def add(self, b, x, channel=None):
+        if self.t == R.T_EMG:
+            return b.addSignal(x) if channel is None else b.addSignal(x, channel=channel)
+        return b.add_track(x)
 
     def initial(self):
         def empty():
@@ -106,21 +118,29 @@ class TrackMachine(ohist.Machine):
         out = []
         if len(model) < MAXTRACKS:
             out.append(("add", "good"))
-        kinds_bad = ["long", "short", "zero", "none", "str", "array", "alien"]
+        kinds_bad = ["long", "short", "zero", "regrown", "none", "str", "array", "alien"]
         if self.n - 1 == 0:
             kinds_bad.remove("short")
         out += [("add", k) for k in kinds_bad]
+        if self.t == R.T_EMG:  # the same with an explicit (free) channel
+            if len(model) < MAXTRACKS:
+                out.append(("add", "good", "chan"))
+            out += [("add", k, "chan") for k in kinds_bad]
         if self.t != R.T_EMG:
             alpha = ("good", "long", "alien")
             for L in range(0, 4):
                 for combo in itertools.product(alpha, repeat=L):
                     out.append(("assign", combo))
-            out += [("assign", ("good", "none")), ("assign", ("zero", "good")), ("assign_tuple",), ("assign_gen_bad",),
-                    ("assign_noniter", "none"), ("assign_noniter", "int"), ("assign_noniter", "track")]
+            out += [("assign", ("good", "none")), ("assign", ("zero", "good")), ("assign", ("good", "regrown")),
+                    ("assign_tuple",), ("assign_gen_bad",),
+                    ("assign_noniter", "none"), ("assign_noniter", "int"), ("assign_noniter", "track"),
+                    ("assign_self", "same"), ("assign_self", "copy"), ("assign_self", "reversed"), ("assign_self", "generator"),
+                    ("assign_self", "plus-bad")]
         return out
 
     def describe(self, op):
-        return f"{op[0]}({','.join(map(str, op[1])) if len(op) > 1 and isinstance(op[1], tuple) else (op[1] if len(op) > 1 else '')})"
+        arg = ','.join(map(str, op[1])) if len(op) > 1 and isinstance(op[1], tuple) else (op[1] if len(op) > 1 else '')
+        return f"{op[0]}({arg}{', explicit channel' if len(op) > 2 else ''})"
 
     def step(self, b, model, op):
         model = list(model)
@@ -139,7 +159,7 @@ class TrackMachine(ohist.Machine):
         if kind == "add":
             x, lab = mk(op[1])
             try:
-                self.add(b, x)
+                self.add(b, x, channel=(1000 + len(model)) if len(op) > 2 else None)
             except Exception as e:  # noqa: BLE001
                 err = e
             if op[1] == "good":
@@ -150,6 +170,29 @@ class TrackMachine(ohist.Machine):
                 if err is None:
                     raise self.V("wrong-element-accepted", f"add({op[1]}) accepted; block now {self._safe_labels(b)}", op[1])
                 self._unchanged(b, before, enc_before, f"refused add({op[1]})")
+        elif kind == "assign_self":
+            # the value is derived from the block's own current list
+            cur = b.tracks
+            items = list(cur)
+            how = op[1]
+            value = {"same": cur, "copy": list(cur), "reversed": list(reversed(cur)), "generator": (x for x in cur),
+                     "plus-bad": list(cur) + [self.element("long")]}[how]
+            expect = {"same": list(model), "copy": list(model), "reversed": list(reversed(model)), "generator": list(model)}.get(how)
+            try:
+                b.tracks = value
+            except Exception as e:  # noqa: BLE001
+                err = e
+            if expect is not None:
+                if err is not None:
+                    raise self.V("valid-list-refused", f"tracks = <{how} of its own tracks>: {type(err).__name__}: {err}", "self")
+                got = self.labels(b)
+                if got != expect:
+                    raise self.V("assignment-not-exact", f"tracks = <{how} of its own tracks {model}>: block now holds {got}", "self")
+                model = expect
+            else:
+                if err is None:
+                    raise self.V("invalid-list-accepted", f"tracks = own tracks + wrong-length accepted; block now {self._safe_labels(b)}", "self")
+                self._unchanged(b, before, enc_before, "refused tracks = own tracks + wrong-length")
         else:
             if kind == "assign":
                 elems = [mk(k) for k in op[1]]
@@ -210,8 +253,10 @@ class TrackMachine(ohist.Machine):
             raise self.V("tracks!=model", f"block holds {got}, history says {model}")
         for x in b:
             n = x.nSamples if self.t == R.T_EMG else x.nFrames
-            if n != self.n:
-                raise self.V("wrong-length-track-inside", f"track {x.label!r} has {n} frames in a block of {self.n}")
+            real = [len(getattr(x, a)) for a in ("data", "application_point", "force", "torque")
+                    if isinstance(getattr(x, a, None), np.ndarray)]
+            if n != self.n or any(r != self.n for r in real):
+                raise self.V("wrong-length-track-inside", f"track {x.label!r} reports {n} frames, arrays have {real}, block has {self.n}")
         try:
             data = specs.lib_encode(b)
             if int(b.nBytes) != len(data):
